@@ -513,13 +513,13 @@ def c02_families(quick, pool=False):
     deep_extra = set()
     for ci, (cname, fn) in enumerate(c02_classes(quick)):
         if quick:
-            # every class on a rotating quarter of the 20 shapes (so each shape is met by many classes), the
+            # every class on a rotating fifth of the 20 shapes (so each shape is met by many classes), the
             # classes of C02_DEEP_CLASSES and the first class of each vector family on all 20
             deep = pool or cname in ("int.mr.mov", "int.lea")
             if cname.startswith("avx.") and "avx." not in deep_extra:
                 deep_extra.add("avx.")
                 deep = True
-            shapes = qs if deep else [sh for i, sh in enumerate(qs) if (i + ci) % 4 == 0]
+            shapes = qs if deep else [sh for i, sh in enumerate(qs) if (i + ci) % 5 == 0]
         else:
             deep = cname in C02_DEEP_CLASSES
             for pre in ("sse.", "avx.", "mmx.", "bmi."):
@@ -919,7 +919,7 @@ def c11_pairs(quick):
                 pick2.append(s)
         # per-change tier: one spelling per branch form, every second immediate form, every second memory shape
         pick5 = [s for s in pick5 if s.name.endswith((".hex", ".neghex")) and not s.name.startswith(("c05.jmp.long", "c05.jrcxz.nokw.neghex"))][:8]
-        pick3 = [s for s in pick3 if not s.name.endswith(".dec")]
+        pick3 = [s for s in pick3 if not s.name.endswith(".dec")][::2]
         pick2 = pick2[::2] if len(pick2) > 18 else pick2
         reps = pick1 + pick4 + pick5 + pick3 + pick2
     else:
@@ -1100,6 +1100,8 @@ def c16_base_families(quick):
     import copy
     for s in seeds:
         for alt in ("dec", "hexz", "decz"):
+            if alt == "hexz" and quick and s.name not in ("c03.add.r.hex", "c03.mov.r64.hex", "c02.mov.mr.bpd_s1_hex", "c02.lea.rm.d_s1_hex", "c05.jmp.nokw.hex"):
+                continue
             if alt == "decz" and quick and s.name not in (
                     "c03.add.r.hex", "c03.mov.r64.hex", "c03.mov.m_word_bmd_s1_hex.neghex", "c02.mov.mr.bpd_s1_hex", "c02.mov.mr.bmd_s1_hex",
                     "c02.lea.rm.bpsximd_s8_hex", "c02.lea.rm.d_s1_hex", "c02.vpaddd.yym.bpixspd_s2_hex", "c05.jmp.nokw.hex", "c05.jne.nokw.neghex"):
